@@ -7,8 +7,13 @@ import "time"
 // vpH_C12_T_health: a leader with a scripted health checker; threshold N symbolic in {0(default 3),1,2,3,4},
 // verdict of every tick chosen by the explorer; demotion by the health path exactly at the N-th consecutive
 // unhealthy tick of the term, never earlier; OnDemote runs; the instance continues as follower.
-func vpH_C12_T_health() {
-	n := vpChoose("threshold", 5)
+func vpH_C12_T_health() { vpC12Health(5) }
+
+// thorough: thresholds up to 7
+func vpH_C12_T_health7() { vpC12Health(8) }
+
+func vpC12Health(maxThr int) {
+	n := vpChoose("threshold", maxThr)
 	thr := n
 	if thr == 0 {
 		thr = 3
